@@ -3,6 +3,7 @@ package main
 import (
 	"bytes"
 	"fmt"
+	"go.brendoncarroll.net/p2p/s/memswarm"
 
 	"go.brendoncarroll.net/p2p"
 	"go.brendoncarroll.net/p2p/f/x509"
@@ -182,6 +183,21 @@ func runC17(c *ctxT) {
 		}
 		c.emit(sx.L(sx.S("idparse"), sx.B(cand)), pobs)
 		c.count("idparse/" + obsClass(pobs))
+		// the same text as the identity part of a nested address: id@inner
+		if !bytes.Contains(cand, []byte("@")) {
+			full := append(append([]byte{}, cand...), []byte("@7")...)
+			memParse := func(b []byte) (memswarm.Addr, error) { return memswarm.ParseAddr(b) }
+			qobs, kobs := sx.Err(), sx.Err()
+			if a, err := quicswarm.ParseAddr[memswarm.Addr](memParse, full); err == nil {
+				qobs = sx.Ok(sx.B(a.ID[:]))
+			}
+			if a, err := p2pkeswarm.ParseAddr[memswarm.Addr](memParse, full); err == nil {
+				kobs = sx.Ok(sx.B(a.ID[:]))
+			}
+			c.emit(sx.L(sx.S("idparse"), sx.B(cand)), qobs)
+			c.emit(sx.L(sx.S("idparse"), sx.B(cand)), kobs)
+			c.count("idparse-in-address/" + obsClass(qobs))
+		}
 		var id2 p2p.PeerID
 		copy(id2[:], r.Bytes(32))
 		if r.Intn(3) == 0 { // share a long prefix
